@@ -62,6 +62,9 @@ func (r *run) emitInit(runId int) {
 	for i := 0; i < cl.nMembers; i++ {
 		w[idName(i)] = int(cl.weights[i])
 	}
+	if cl.exclFrom > 0 && len(cl.ids) > cl.nMembers+1 {
+		w[cl.nameOf(cl.ids[cl.nMembers+1])] = int(cl.weights[cl.exclIdx]) // the silent member that takes the leaver's place
+	}
 	byz := []string{}
 	for i := 0; i < cl.nMembers; i++ {
 		if cl.byz[i] {
@@ -85,6 +88,10 @@ func (r *run) record(n *cnode, ev string, msg obj, extra obj) {
 			to = append(to, cl.nameOf(id))
 		}
 		sent = append(sent, obj{"to": to, "msg": cl.msgAbs(s.raw)})
+		if s.failed {
+			r.stats["send_failed"]++
+			continue
+		}
 		r.adv.observe(s.raw)
 		for _, id := range s.to {
 			for _, m := range cl.nodes {
@@ -410,8 +417,22 @@ func cmdCluster(args []string) int {
 			}
 			pol = policy{deliver: 15, dup: 6, drop: 1, timeout: 6, byz: 52, mutate: 18, garbage: 1, sync: 1, fifo: 50}
 		}
-		cl := newCluster(ws, byz, 1, rnd.Intn(2) == 0)
+		cl := newCluster(ws, byz, 2, rnd.Intn(2) == 0)
 		cl.lenient = rnd.Intn(4) == 0
+		if rnd.Intn(4) == 0 {
+			cl.sendFailEvery = 5 + rnd.Intn(6)
+		}
+		if !*lone && *maxH >= 2 && rnd.Intn(4) == 0 { // a correct member leaves the committee after the first height
+			var cands []int
+			for j := 0; j < n; j++ {
+				if !cl.byz[j] {
+					cands = append(cands, j)
+				}
+			}
+			if len(cands) > 0 {
+				cl.exclIdx, cl.exclFrom = cands[rnd.Intn(len(cands))], 2
+			}
+		}
 		r := &run{cl: cl, adv: newAdversary(cl), rnd: rnd, out: out, chain: map[uint64]commitRec{}, maxH: uint64(*maxH), stats: stats, tmpl: tmpl, probeOn: *probe >= 0, probe: *probe}
 		r.emitInit(i)
 		r.startNodes()
